@@ -22,11 +22,10 @@ WORKSPACE
   `import pyUSID` resolves to {wt}/pyUSID (verify with `/venv/bin/python -c "import pyUSID; print(pyUSID.__file__)"`).
   Every command prints a harmless conda WARNING line first.
 * Existing tests: `cd {wt} && /venv/bin/python -m pytest -q -p no:cacheprovider --timeout=900 --continue-on-collection-errors -rf tests 2>&1 | tail -5`
-  (about 25 s).  On the UNCHANGED tree 294 tests pass and 65 fail (numpy-2 incompatibilities such as np.product);
+  (about 25 s).  On the UNCHANGED tree 347 tests pass and 12 fail (numpy-2 incompatibilities in the tests);
   that is the baseline.  Record the set of failing test ids BEFORE your change (e.g. with `-rf`), and make sure that
   after your change exactly the same tests pass (no new failure, no new error).
-* Useful facts: Process subclasses in your demonstration must create their results datasets with raw h5py
-  (pyUSID's write_main_dataset fails on this numpy because of np.product); USID files are best built with raw h5py
+* Useful facts: USID files for a demonstration are best built with raw h5py
   (main dataset with attrs quantity/units and four object-reference attrs Position_Indices, Position_Values,
   Spectroscopic_Indices, Spectroscopic_Values pointing at 2-D ancillary datasets that carry string-array attrs
   `labels` and `units`); tests/io/data_utils.py shows how.
